@@ -440,5 +440,43 @@ pub fn run(ctx: &mut Ctx) {
             ctx.sample(|| json!({"dag": d.describe(), "ids": &POOL[..n], "roots": n}));
         }
     }
+    // ---- 6. (last, because of the garbage it leaves in the allocator) one very large ontology: 70 000 terms in heap shape (term k is_a term k/2), supplied in
+    // ascending order and in an order that interleaves the two halves; beyond every 16-bit table size
+    {
+        ctx.space("huge/heap-70000", "70 000 terms, term k is_a term k/2 (ids = positions 1..=70000), Builder in ascending and in interleaved-halves order: whole observation against the model");
+        for variant in 0..2 {
+            if !ctx.take() {
+                continue;
+            }
+            ctx.state();
+            ctx.nontrivial();
+            let n = 70_000u32;
+            let mut f = Facts::default();
+            let order: Vec<u32> = if variant == 0 { (1..=n).collect() } else { (1..=n / 2).flat_map(|k| [k, k + n / 2]).collect() };
+            for k in &order {
+                f.terms.push(Facts::term(*k, &format!("T{k}")));
+            }
+            for k in 2..=n {
+                f.edges.push((k, k / 2));
+            }
+            let r = RefOnt::derive(&f);
+            ctx.transitions(f.n_steps());
+            match drive::build(&f, Mode::Minimal) {
+                Err(e) => {
+                    ctx.exec();
+                    ctx.violation("Builder", "[builder] construction fails on valid facts", json!({"shape": "heap of 70000 terms", "observed": e}));
+                }
+                Ok(ont) => {
+                    let case = || json!({"shape": "heap of 70000 terms: term k is_a term k/2", "term_order": if variant == 0 { "ascending" } else { "k, k+35000, k+1, ..." }});
+                    check_against_model(ctx, &ont, &r, Mode::Minimal, "builder", &case);
+                }
+            }
+            ctx.sample(|| json!({"shape": "heap", "n_terms": n, "variant": variant}));
+            drop(r);
+            drop(f);
+            crate::ctx::trim_heap();
+        }
+    }
+
     let _ = Sections::split; // (splitter is exercised in C08)
 }
